@@ -31,6 +31,16 @@ def biased_grammar(r):
         return c02.random_grammar(r)
     if r.random() < 0.3:
         return twin_words(r)
+    if r.random() < 0.15:
+        # one literal text with two descriptions, expected at different points (legal: no conflict at one point)
+        t = r.choice(['web', 'all', 'x'])
+        others = r.sample(['status', 'up', 'down', 'go'], 2)
+        e = alt(seq(lit('start'), lit(t, 'start the %s tier' % t)), seq(lit('stop'), lit(t, 'stop the %s tier' % t)),
+                lit(others[0]), lit(others[1]))
+        if r.random() < 0.5:
+            e = alt(e, seq(lit('in'), ('word', (lit('k='), alt(lit(t, 'first'), lit('z'))))),
+                    seq(lit('out'), ('word', (lit('k='), alt(lit(t, 'second'), lit('z'))))))
+        return [call('cmd', e)]
     pres = ['--a=', '--b=', '-c', 'd:', '--e=']
     r.shuffle(pres)
     nw = r.randint(2, 5)
